@@ -4,7 +4,7 @@ import json, copy, itertools, io, contextlib
 import numpy as np
 from . import core, meta as M, suite_meta as SM
 
-THEOREMS = ['Source.check_valid_is_model', 'Source.get_valid_classes_is_model', 'Source.get_valid_classes_refuses', 'Source.get_multiplicity_is_model', 'Source.translator_complete_meta', 'C10.checkValid_iff_rules_partial', 'C10.rules_accepted', 'C10.corruption_rejected',
+THEOREMS = ['C10.checkValid_iff_rules_partial', 'C10.rules_accepted', 'C10.corruption_rejected',
             'C10.reject_missing_required', 'C10.reject_bad_geometry', 'C10.reject_missing_class_dict',
             'C10.reject_wrong_count', 'C10.reject_slice_meta_without_slice_dim',
             'C10.reject_duplicate_key', 'C10.checkValid_not_iff_rules_full',
